@@ -941,6 +941,9 @@ impl Expire {
 		let mut args = sanitize(&args, false);
 		if stage < 2 || role != 0 {
 			args.late_lock = false;
+		} else if c.k % 4 < 2 && !args.proof {
+			// half of the finalized sender cases are late-locked (reservation and log entry are made at finalize time)
+			args.late_lock = true;
 		}
 		let b: Option<u64> = match c.b_sel % 7 {
 			0 => None,
